@@ -254,6 +254,7 @@ package http2
 //@ func (*serverConn).processHeaders :: sc, f -> err
 //@   props C13,C10
 //@   requires sc != nil && f != nil && f.HeadersFrame != nil && sc.streams != nil && sc.hs != nil && sc.srv != nil && sc.handler != nil && sc.conn != nil && sc.writeSched != nil && sc.curClientStreams < 4294967295 && hdrCacheOK(sc)
+//@   requires [C13:streams-belong-to-this-connection] forall id uint32 :: mapHas(sc.streams, id) && mapGet(sc.streams, id) != nil ==> mapGet(sc.streams, id).sc == sc
 //@   assigns unrestricted, procLog, handlerStarts
 //@   ghostset procLog = procLog ++ seq[int]{1}
 //@   ensures procLog == old(procLog) ++ seq[int]{1}
@@ -266,7 +267,7 @@ package http2
 
 //@ -- what the serve loop maintains between frames, and what the framer guarantees about a frame it hands over
 //@ -- every registered stream is open or half closed, has its cancel function, and its unread body bytes are owed
-//@ pure func regOK(sc *serverConn) bool = forall id uint32 :: mapHas(sc.streams, id) ==> mapGet(sc.streams, id).state != 0 && mapGet(sc.streams, id).state != 4 && mapGet(sc.streams, id).cancelCtx != nil && (mapGet(sc.streams, id).body != nil ==> unreadOf(mapGet(sc.streams, id).body) <= owedByBodies)
+//@ pure func regOK(sc *serverConn) bool = forall id uint32 :: mapHas(sc.streams, id) ==> mapGet(sc.streams, id).state != 0 && mapGet(sc.streams, id).state != 4 && mapGet(sc.streams, id).cancelCtx != nil && mapGet(sc.streams, id).sc == sc && (mapGet(sc.streams, id).body != nil ==> unreadOf(mapGet(sc.streams, id).body) <= owedByBodies)
 //@ pure func connInv(sc *serverConn) bool = streamsOK(sc) && inflowOK(sc.inflow) && (forall id uint32 :: mapHas(sc.streams, id) ==> inflowOK(mapGet(sc.streams, id).inflow)) && (forall id uint32 :: mapHas(sc.streams, id) && mapGet(sc.streams, id).state == 1 ==> mapGet(sc.streams, id).body != nil) && connLedger(sc) <= 2147483647 && owedByBodies >= 0 && sc.hs != nil && sc.srv != nil && sc.handler != nil && sc.conn != nil && sc.writeSched != nil && sc.curClientStreams < 4294967295 && hdrCacheOK(sc) && (forall id uint32 :: mapHas(sc.streams, id) ==> mapGet(sc.streams, id).state != 0) && (sc.pingSent ==> sc.readIdleTimer != nil) && sc.unackedSettings >= 0 && regOK(sc)
 //@ pure func frameWF(f Frame) bool = (isptr(WindowUpdateFrame, f) ==> 1 <= unboxptr(WindowUpdateFrame, f).Increment && unboxptr(WindowUpdateFrame, f).Increment <= 2147483647) && (isptr(DataFrame, f) ==> unboxptr(DataFrame, f).FrameHeader.valid && len(unboxptr(DataFrame, f).data) <= unboxptr(DataFrame, f).FrameHeader.Length && unboxptr(DataFrame, f).FrameHeader.Length <= 16777215)
 
